@@ -43,11 +43,11 @@ def main():
         },
         "engines": [{
             "name": "coq-proof+correspondence", "path": "tools/check.py", "serves_properties": READY,
-            "kind_free_text": "Coq 8.16.1 model + theorems per property (coq_makefile full .vo build, Print Assumptions, coqchk in thorough); harness/srcgen re-translates constants, tables and pure functions from /repo on every run; in-package Go drivers (-overlay, tag verif) record the real code's behaviour, evaluated against model and specification with vm_compute",
+            "kind_free_text": "Coq 8.16.1 model + theorems per property (coq_makefile full .vo build, Print Assumptions, coqchk in thorough); harness/srcgen re-translates constants, tables, pure functions, loops (fuelled Fixpoints), slices/strings and receiver-mutating methods from /repo on every run (and is itself tested differentially at set-up); in-package Go drivers (-overlay, tag verif) record the real code's behaviour, evaluated against model and specification with vm_compute",
         }],
         "checks": [],
         "not_applicable": [],
-        "notes": "Every property is decided by machine-checked proof in Coq tied to the source by a translator and a correspondence check; see DESIGN.md. Known findings (genuine defects reproduced on the unchanged tree) are listed in KNOWN_FINDINGS.txt and printed as KNOWN-FINDING lines.",
+        "notes": "Every property is decided by machine-checked proof in Coq tied to the source by a translator and a correspondence check; see DESIGN.md. Genuine defects the checks reproduced were repaired in /repo as unguarded fix: commits (FIXES_LANDED.md, DESIGN.md section 6; `fixed:` lines in KNOWN_FINDINGS.txt, which suppress nothing); the two that were not small and safe to repair are `known:` lines there and are printed as KNOWN-FINDING lines (C05 rdata-name-case, C18 blocklist-entry-spelling). No theorem depends on any axiom.",
     }
     for p in props:
         pid = p["id"]
